@@ -226,6 +226,34 @@ def f05_lone_keepalive():
     return None
 
 
+def f29_contact_with_trailing():
+    GLib.SOURCES.clear(); GLib.ERRORS.clear(); dbus.service.EMITTED.clear()
+    sa, sb = pair()
+    A = mk(sa, False)
+    A.start(); GLib.run_pending()
+    whole = bytes(contact.Head() / contact.ContactV4(flags=0))
+    si = bytes(messages.MessageHead() / messages.SessionInit(keepalive=3, segment_mru=100, transfer_mru=1000, nodeid_data='dtn://b/'))
+    sa.rx += whole + si
+    GLib.run_pending()
+    if not A._in_sess:
+        return 'contact header and SESS_INIT arriving in one read: the SESS_INIT octets are consumed with the header (in session: {}, buffer {})'.format(A._in_sess, A.recv_buffer_used())
+    return None
+
+
+def f30_unknown_message_type():
+    A, B, sa, sb = established()
+    sent = []
+    orig = A.send_message
+    A.send_message = lambda pkt: (sent.append(pkt), orig(pkt))[1]
+    sa.rx += b'\x99\x01\x02\x03'
+    GLib.run_pending()
+    if GLib.ERRORS:
+        return 'unknown message type: {}'.format(GLib.ERRORS[0][1])
+    if not any(isinstance(p.payload, (messages.RejectMsg, messages.SessionTerm)) for p in sent) and not sa.closed:
+        return 'unknown message type 0x99 is never answered (no MSG_REJECT, no SESS_TERM, no close): {} octets sit in the receive buffer and every later message is stuck behind them'.format(A.recv_buffer_used())
+    return None
+
+
 def f08_agent_stop():
     import tcpcl.agent
     from tcpcl.config import Config
@@ -247,7 +275,7 @@ def f08_agent_stop():
 
 DEMOS = [f01_zero_length, f02_new_transfer_after_term, f06_idle_while_terminating, f07_sess_term_before_init, f17_unknown_ack,
          f18_unknown_refuse, f19_refuse_known, f19b_send_refuse, f20_bad_magic, f20b_bad_version, f22_flush_leaves_tx_map,
-         f04_contact_prefix, f05_lone_keepalive, f08_agent_stop]
+         f04_contact_prefix, f05_lone_keepalive, f29_contact_with_trailing, f30_unknown_message_type, f08_agent_stop]
 
 if __name__ == '__main__':
     want = sys.argv[1:]
